@@ -14,7 +14,7 @@ import os
 import subprocess
 import sys
 
-from ..core import runner, e1, snapshot, opwrap
+from ..core import runner, e1, snapshot, opwrap, clone
 from ..model import refparse, reflex
 from ..spaces import tokens as T, sentences as S
 
@@ -39,7 +39,7 @@ def cached_real():
         from ..core import real
         import copy
         e1.get_real()
-        p = copy.deepcopy(e1._template)
+        p = clone.pristine(e1._template)
         p.parse_cache = {}
         _cached = real.Real(p)
     return _cached
